@@ -161,6 +161,7 @@ def run(report, tier, seed):
             except Exception as exc:  # noqa: BLE001
                 note("set_dimensions-raise", f"set_dimensions({desc}, {d}) raised {type(exc).__name__}: {exc}", {"poly": lay, "d": d})
         # --- sortable_proxy, argmax/argmin/amax/amin (no axis) ------------------------------------
+        axis_checks = []
         if size >= 1:
             try:
                 with numpoly.global_options(sort_graded=g, sort_reverse=r):
@@ -186,6 +187,36 @@ def run(report, tier, seed):
                        f"zamax_pos {gb} {rb} {tp} \\in {core.cnats(cand_max)} & zamin_pos {gb} {rb} {tp} \\in {core.cnats(cand_min)}]",
                        {"kind": "argmin/argmax/amin/amax", "poly": desc, "graded": g, "reverse": r,
                         "impl": {"argmin": an, "argmax": am, "amax_is_element": cand_max, "amin_is_element": cand_min}})
+            if shape and size <= 40 and (nzero <= 1 or any(not any(r_) for r_ in lay["rows"])):
+                # the same four functions ALONG AN AXIS: numpy works lane by lane; the lanes (flat positions that differ
+                # only in the reduced coordinate) are computed here and handed to the model as data
+                ax = rng.randrange(len(shape))
+                lanes = numpy.moveaxis(numpy.arange(size).reshape(shape), ax, -1).reshape(-1, shape[ax]).tolist()
+                try:
+                    with numpoly.global_options(sort_graded=g, sort_reverse=r):
+                        an_ax = numpy.asarray(numpoly.argmin(p, axis=ax)).ravel().tolist()
+                        am_ax = numpy.asarray(numpoly.argmax(p, axis=ax)).ravel().tolist()
+                        vmin_ax, vmax_ax = numpoly.amin(p, axis=ax), numpoly.amax(p, axis=ax)
+                except Exception as exc:  # noqa: BLE001
+                    note("axis-raise", f"argmin/argmax/amin/amax(axis={ax}) on {desc} raised {type(exc).__name__}: {exc}", {"poly": lay, "axis": ax})
+                else:
+                    _, pe_ = core.canon_elements(p)
+                    shp_min, vmin_e = core.canon_elements(vmin_ax)
+                    shp_max, vmax_e = core.canon_elements(vmax_ax)
+                    want_shape = [d for k_, d in enumerate(shape) if k_ != ax]
+                    if list(shp_min) != want_shape or list(shp_max) != want_shape or len(an_ax) != len(lanes) or len(am_ax) != len(lanes):
+                        note("axis-shape", f"amin/amax/argmin/argmax(axis={ax}) of {desc}: result shapes {shp_min}/{shp_max}, "
+                                           f"{len(an_ax)}/{len(am_ax)} positions for {len(lanes)} lanes", {"poly": lay, "axis": ax})
+                    else:
+                        cmin = [[i for i in lane if pe_[i] == vmin_e[k_]] for k_, lane in enumerate(lanes)]
+                        cmax = [[i for i in lane if pe_[i] == vmax_e[k_]] for k_, lane in enumerate(lanes)]
+                        cl = core.cseq(core.cnats(lane) for lane in lanes)
+                        cc.add(f"[&& zargmin_axis {gb} {rb} {tp} {cl} == {core.cnats(an_ax)}, zargmax_axis {gb} {rb} {tp} {cl} == {core.cnats(am_ax)}, "
+                               f"among (zamin_axis {gb} {rb} {tp} {cl}) {core.cseq(core.cnats(c) for c in cmin)} "
+                               f"& among (zamax_axis {gb} {rb} {tp} {cl}) {core.cseq(core.cnats(c) for c in cmax)}]",
+                               {"kind": "argmin/argmax/amin/amax along an axis", "poly": desc, "graded": g, "reverse": r, "axis": ax,
+                                "impl": {"argmin": an_ax, "argmax": am_ax, "amin_is_element": cmin, "amax_is_element": cmax}})
+                        axis_checks.append((ax, lanes, an_ax, am_ax, cmin, cmax))
             if sorted(proxy) != list(range(size)):
                 note("proxy", f"sortable_proxy({desc}) = {proxy} is not a permutation of 0..{size-1}", {"poly": lay})
                 continue
@@ -208,6 +239,17 @@ def run(report, tier, seed):
                 break
             if keys[am] != max(keys) or keys[an] != min(keys):
                 note("argext", f"argmax/argmin of {desc} = {am}/{an} is not extreme for the leading-term order", {"poly": lay})
+            for ax, lanes, an_ax, am_ax, cmin, cmax in axis_checks:
+                for k_, lane in enumerate(lanes):
+                    lk = [keys[i] for i in lane]
+                    if an_ax[k_] != lk.index(min(lk)) or am_ax[k_] != lk.index(max(lk)):
+                        note("argext-axis", f"argmin/argmax(axis={ax}) of {desc}: lane {lane} gives {an_ax[k_]}/{am_ax[k_]}, the first extreme "
+                                            f"places for the leading-term order are {lk.index(min(lk))}/{lk.index(max(lk))}", {"poly": lay, "axis": ax})
+                        break
+                    if not any(keys[i] == min(lk) for i in cmin[k_]) or not any(keys[i] == max(lk) for i in cmax[k_]):
+                        note("aext-axis", f"amin/amax(axis={ax}) of {desc}: the element returned for lane {lane} is not an extreme element of it",
+                             {"poly": lay, "axis": ax})
+                        break
             for val, idx, nm in ((vmax, am, "amax"), (vmin, an, "amin")):
                 _, ve = core.canon_elements(val)
                 _, pe = core.canon_elements(p)
